@@ -324,6 +324,9 @@ def applyOp (op : String) (args : List Val) : Option Val :=
   | "pick", [.str a, b, c] => some (if a.length % 2 = 1 then b else c)            -- `b if len(a) % 2 else c`
   | "len", [.str a] => some (.int a.length)                                       -- `len(a)`
   | "width", [a] => (widthOf a).map (fun n => .int n)                             -- `len(str(a))`
+  -- the logistic function of the GSGP operators, `1 / (1 + math.exp(-x))` (always a float; `math.exp` raises
+  -- OverflowError beyond the double range, which the harness keeps away from)
+  | "lf", [a] => if isNum a then some (.flt (1.0 / (1.0 + Float.exp (-(toF a))))) else none
   | _, _ => none
 
 
